@@ -88,7 +88,7 @@ def compare(proc, sv, B, W, ref, got, tol, label):
               observed=dict(ref=Br.tolist(), got=Bg.tolist()))
         if sv.n <= sv.m:
             errx = np.abs(Xg - Xr)
-            tolx = tol * 10 / max(1e-9, float(np.min(np.linalg.svd(sv.Ap, compute_uv=False))))
+            tolx = float(np.max(tol)) * 10 / max(1e-9, float(np.min(np.linalg.svd(sv.Ap, compute_uv=False))))
             check(np.all(errx <= tolx), f"{label}:intensities-differ", f"{proc}: unique intensities differ by {errx.max():.3g} (tol {tolx:.3g})")
     elif proc == "excitation":
         o_r, o_g = excitation_objective(B, Br), excitation_objective(B, Bg)
